@@ -93,6 +93,39 @@ function tryNew(patU,flags){ try { new RegExp(U(patU),flags); return "ok"; } cat
 
 var driverPrg = goja.MustCompile("driver.js", driverSrc, false)
 
+// Runtimes are pooled per process and by kind (-1/1: pristine RegExp.prototype, 0/2: de-optimised that way)
+// and renewed every poolLife uses: creating six runtimes per case dominated the run.  Nothing a case
+// does outlives it except the (intended) prototype de-optimisation of kinds 0 and 2.  A host panic
+// discards the pool (see main).
+const poolLife = 400
+
+var pool = map[int]*goja.Runtime{}
+var poolUses = map[int]int{}
+
+func pooledRT(kind int) *goja.Runtime {
+	if kind == 1 {
+		kind = -1
+	}
+	if rt, ok := pool[kind]; ok && poolUses[kind] < poolLife {
+		poolUses[kind]++
+		return rt
+	}
+	rt := newRT()
+	if kind >= 0 {
+		if _, err := rt.RunString(fmt.Sprintf("deopt(%d)", kind)); err != nil {
+			panic(err)
+		}
+	}
+	pool[kind] = rt
+	poolUses[kind] = 1
+	return rt
+}
+
+func dropPool() {
+	pool = map[int]*goja.Runtime{}
+	poolUses = map[int]int{}
+}
+
 func newRT() *goja.Runtime {
 	rt := goja.New()
 	rt.Set("__engine", func(v goja.Value) string { return goja.VerifRegexpEngine(v) })
@@ -256,6 +289,170 @@ func errCode(name string) int {
 	return 9
 }
 
+// ---- wire format: a case is one flat list of 63-bit integers decoded by Run.T (see coq/C20/Run.v) ----
+type tk []uint64
+
+func (t *tk) n(x uint64) { *t = append(*t, x) }
+func (t *tk) z(x int64) {
+	if x < -1000 || x > 1<<40 {
+		x = -999
+	}
+	t.n(uint64(x + 1000))
+}
+func (t *tk) b(b bool) {
+	if b {
+		t.n(1)
+	} else {
+		t.n(0)
+	}
+}
+func (t *tk) str(a []int) {
+	t.n(uint64(len(a)))
+	for i := 0; i < len(a); i += 3 {
+		var v uint64
+		for k := 0; k < 3 && i+k < len(a); k++ {
+			v |= uint64(a[i+k]&0xFFFF) << (16 * uint(k))
+		}
+		t.n(v)
+	}
+}
+func (t *tk) ostr(a *[]int) {
+	if a == nil {
+		t.n(0)
+		return
+	}
+	t.n(1)
+	t.str(*a)
+}
+func (t *tk) mres(m *jm, rng []int) {
+	end := m.I
+	if len(m.C) > 0 && m.C[0] != nil {
+		end += len(*m.C[0])
+	}
+	t.z(int64(m.I))
+	t.z(int64(end))
+	t.n(uint64(len(m.C)))
+	for _, c := range m.C {
+		t.ostr(c)
+	}
+	if m.G == nil {
+		t.n(0)
+	} else {
+		t.n(1)
+		t.n(uint64(len(*m.G)))
+		for _, kv := range *m.G {
+			k := []int{}
+			if kv[0] != nil {
+				k = *kv[0]
+			}
+			t.str(k)
+			t.ostr(kv[1])
+		}
+	}
+	t.n(uint64(len(rng) / 2))
+	for i := 0; i+1 < len(rng); i += 2 {
+		if rng[i] < 0 {
+			t.n(0)
+		} else {
+			t.n(1)
+			t.z(int64(rng[i]))
+			t.z(int64(rng[i+1]))
+		}
+	}
+}
+func (t *tk) omres(m *jm, rng []int) {
+	if m == nil {
+		t.n(0)
+		return
+	}
+	t.n(1)
+	t.mres(m, rng)
+}
+func (t *tk) step(o jop) {
+	switch o.T {
+	case "m":
+		if o.M == nil {
+			t.n(0)
+		} else {
+			t.n(1)
+			t.mres(o.M, nil)
+		}
+	case "b":
+		t.n(2)
+		t.b(o.B)
+	case "l":
+		if o.L == nil {
+			t.n(0)
+		} else {
+			t.n(3)
+			t.n(uint64(len(*o.L)))
+			for _, x := range *o.L {
+				t.ostr(x)
+			}
+		}
+	case "a":
+		t.n(4)
+		t.n(uint64(len(o.A)))
+		for _, m := range o.A {
+			if m == nil {
+				m = &jm{}
+			}
+			t.mres(m, nil)
+		}
+	case "s":
+		x := []int{}
+		if o.S != nil {
+			x = *o.S
+		}
+		t.n(5)
+		t.str(x)
+	case "z":
+		t.n(6)
+		t.z(int64(o.Z))
+	default:
+		t.n(7)
+		t.n(uint64(errCode(o.E)))
+	}
+	li, err := o.Li.Int64()
+	if err != nil {
+		li = -999
+	}
+	t.z(li)
+}
+func (t *tk) op(o Op) {
+	switch o.O {
+	case "exec":
+		t.n(0)
+	case "test":
+		t.n(1)
+	case "match":
+		t.n(2)
+	case "matchAll":
+		t.n(3)
+	case "replace", "replaceFn":
+		t.n(4)
+	case "search":
+		t.n(5)
+	case "split":
+		if o.Lim == nil {
+			t.n(6)
+		} else {
+			t.n(7)
+			t.z(int64(*o.Lim))
+		}
+	default:
+		t.n(0)
+	}
+}
+func (t tk) key() string { return fmt.Sprint([]uint64(t)) }
+func (t tk) term() string {
+	parts := make([]string, len(t))
+	for i, x := range t {
+		parts[i] = fmt.Sprint(x)
+	}
+	return "T [" + strings.Join(parts, ";") + "]%uint63"
+}
+
 func coqObs(o jop) string {
 	li, err := o.Li.Int64()
 	if err != nil {
@@ -329,6 +526,15 @@ func coqOp(o Op) string {
 
 const failTerm = "CFail"
 
+func syntaxTerm(bad bool, a, b int) string {
+	var w tk
+	w.n(2)
+	w.b(bad)
+	w.n(uint64(a))
+	w.n(uint64(b))
+	return w.term()
+}
+
 const prefixB = "(?=)"
 
 func withPrefix(p []uint16) []uint16 {
@@ -349,12 +555,22 @@ func baseFlags(f string) string {
 	return sb.String()
 }
 
-func runCase(c Case) vh.Record {
+func runCase(c Case) (rec vh.Record) {
+	defer func() {
+		if x := recover(); x != nil {
+			dropPool() // a runtime that panicked in Go code is not reused
+			panic(x)
+		}
+	}()
+	return runCase1(c)
+}
+
+func runCase1(c Case) vh.Record {
 	raw := vh.MustJSON(c)
 	tags := map[string]bool{"kind:" + c.Kind: true}
 	switch c.Kind {
 	case "flags":
-		rt := newRT()
+		rt := pooledRT(-1)
 		var res string
 		f, _ := goja.AssertFunction(rt.Get("tryNew"))
 		v, err := f(goja.Undefined(), rt.ToValue(unitsArg([]uint16{'a'})), rt.ToValue(c.Flags))
@@ -368,10 +584,17 @@ func runCase(c Case) vh.Record {
 		}
 		acc := res == "ok"
 		tags["flags-accepted:"+vh.CoqBool(acc)] = true
-		return vh.Record{Case: raw, Coq: fmt.Sprintf("CFlags %s %s %s", coqStr(fl), vh.CoqBool(acc), vh.CoqBool(res == "ok" || res == "SyntaxError")),
+		return vh.Record{Case: raw, Coq: func() string {
+			var w tk
+			w.n(1)
+			w.str(fl)
+			w.b(acc)
+			w.b(res == "ok" || res == "SyntaxError")
+			return w.term()
+		}(),
 			Obs: fmt.Sprintf(`{"flags":%q,"result":%q}`, c.Flags, res), Tags: tagList(tags), Nontrivial: len(c.Flags) > 0}
 	case "syntax":
-		rt := newRT()
+		rt := pooledRT(-1)
 		f, _ := goja.AssertFunction(rt.Get("tryNew"))
 		va, err := f(goja.Undefined(), rt.ToValue(unitsArg(c.Pat)), rt.ToValue(c.Flags))
 		if err != nil {
@@ -387,7 +610,7 @@ func runCase(c Case) vh.Record {
 			}
 			return errCode(s)
 		}
-		return vh.Record{Case: raw, Coq: fmt.Sprintf("CSyntax %s %d%%N %d%%N", vh.CoqBool(c.Bad), code(va.String()), code(vb.String())),
+		return vh.Record{Case: raw, Coq: syntaxTerm(c.Bad, code(va.String()), code(vb.String())),
 			Obs:  fmt.Sprintf(`{"pat":%q,"flags":%q,"A":%q,"B":%q}`, string(utf16ToRunes(c.Pat)), c.Flags, va.String(), vb.String()),
 			Tags: tagList(tags), Nontrivial: true}
 	}
@@ -400,12 +623,7 @@ func runCase(c Case) vh.Record {
 		kind int
 	}{{patA, -1}, {patA, c.Deopt}, {patB, -1}, {patB, c.Deopt}}
 	for i, cf := range cfgs {
-		rt := newRT()
-		if cf.kind >= 0 {
-			if _, err := rt.RunString(fmt.Sprintf("deopt(%d)", cf.kind)); err != nil {
-				panic(err)
-			}
-		}
+		rt := pooledRT(cf.kind)
 		rawObs[i] = callJSON(rt, "run", &obs[i], unitsArg(cf.pat), c.Flags, unitsArg(c.Subj), c.Start, opsArg(c.Ops), cf.kind)
 	}
 	if obs[0].Err != "" || obs[2].Err != "" {
@@ -416,78 +634,104 @@ func runCase(c Case) vh.Record {
 			return errCode(s)
 		}
 		tags["construct-error"] = true
-		return vh.Record{Case: raw, Coq: fmt.Sprintf("CSyntax false %d%%N %d%%N", code(obs[0].Err), code(obs[2].Err)),
+		return vh.Record{Case: raw, Coq: syntaxTerm(false, code(obs[0].Err), code(obs[2].Err)),
 			Obs:  fmt.Sprintf(`{"pat":%q,"flags":%q,"A":%q,"B":%q}`, string(utf16ToRunes(c.Pat)), c.Flags, obs[0].Err, obs[2].Err),
 			Tags: tagList(tags), Nontrivial: true}
 	}
 	var tabs [2]jtab
 	for i, p := range [][]uint16{patA, patB} {
-		rt := newRT()
+		rt := pooledRT(-1)
 		callJSON(rt, "table", &tabs[i], unitsArg(p), baseFlags(c.Flags), unitsArg(c.Subj))
 	}
-	// distinct table entries + index lists (identical rendered terms are identical terms)
-	var ents []string
-	entIdx := map[string]int{}
-	tabIdx := func(t jtab) string {
-		parts := make([]string, len(t.Tab))
-		for i, e := range t.Tab {
-			s := coqM(e.M, e.R)
-			k, ok := entIdx[s]
-			if !ok {
-				k = len(ents)
-				entIdx[s] = k
-				ents = append(ents, s)
-			}
-			parts[i] = fmt.Sprint(k)
-		}
-		return "[" + strings.Join(parts, ";") + "]%nat"
+	// distinct table entries / observation lists + index lists (identical token sequences are identical values)
+	var w tk
+	w.n(0)
+	for _, f := range "gimsuy" {
+		w.b(strings.ContainsRune(c.Flags, f))
 	}
-	iA, iB := tabIdx(tabs[0]), tabIdx(tabs[1])
-	eng := func(s string) string {
-		if strings.HasPrefix(s, "re2") {
-			return "RE2"
-		}
-		return "RX2"
-	}
-	names := make([]string, len(c.Names))
-	for i, nm := range c.Names {
-		k := toInt(nm[0])
-		s := fmt.Sprint(nm[1])
+	w.n(uint64(c.NCap))
+	w.n(uint64(len(c.Names)))
+	for _, nm := range c.Names {
+		w.n(uint64(toInt(nm[0])))
 		u := []int{}
-		for _, ch := range s {
+		for _, ch := range fmt.Sprint(nm[1]) {
 			u = append(u, int(ch))
 		}
-		names[i] = fmt.Sprintf("(%d%%N,%s)", k, coqStr(u))
+		w.str(u)
 	}
-	ops := make([]string, len(c.Ops))
-	for i, o := range c.Ops {
-		ops[i] = coqOp(o)
+	su := make([]int, len(c.Subj))
+	for i, x := range c.Subj {
+		su[i] = int(x)
+	}
+	w.str(su)
+	w.z(int64(c.Start))
+	w.n(uint64(len(c.Ops)))
+	for _, o := range c.Ops {
+		w.op(o)
 		tags["op:"+o.O] = true
 	}
-	var obsd []string
-	obsIdx := map[string]int{}
-	oi := make([]string, 4)
-	for i := range obs {
-		parts := make([]string, len(obs[i].Ops))
-		for j, o := range obs[i].Ops {
-			parts[j] = coqObs(o)
+	for _, e := range []string{obs[0].Eng, obs[2].Eng} {
+		if strings.HasPrefix(e, "re2") {
+			w.n(0)
+		} else {
+			w.n(1)
 		}
-		s := "[" + strings.Join(parts, ";") + "]"
-		k, ok := obsIdx[s]
+	}
+	var ents []tk
+	entIdx := map[string]int{}
+	var tabIdx [2][]int
+	for ti, tb := range tabs {
+		for _, e := range tb.Tab {
+			var x tk
+			x.omres(e.M, e.R)
+			k, ok := entIdx[x.key()]
+			if !ok {
+				k = len(ents)
+				entIdx[x.key()] = k
+				ents = append(ents, x)
+			}
+			tabIdx[ti] = append(tabIdx[ti], k)
+		}
+	}
+	w.n(uint64(len(ents)))
+	for _, e := range ents {
+		w = append(w, e...)
+	}
+	for ti := range tabIdx {
+		w.n(uint64(len(tabIdx[ti])))
+		for _, k := range tabIdx[ti] {
+			w.n(uint64(k))
+		}
+	}
+	var obsd []tk
+	obsIdx := map[string]int{}
+	var oi []int
+	for i := range obs {
+		var x tk
+		x.n(uint64(len(obs[i].Ops)))
+		for _, o := range obs[i].Ops {
+			x.step(o)
+		}
+		k, ok := obsIdx[x.key()]
 		if !ok {
 			k = len(obsd)
-			obsIdx[s] = k
-			obsd = append(obsd, s)
+			obsIdx[x.key()] = k
+			obsd = append(obsd, x)
 		}
-		oi[i] = fmt.Sprint(k)
+		oi = append(oi, k)
 	}
 	if len(obsd) > 1 {
 		tags["configs-differ"] = true
 	}
-	term := fmt.Sprintf("CRun %s %d%%N [%s] %s %s [%s] %s %s [%s] %s %s [%s] [%s]%%nat",
-		coqFlags(c.Flags), c.NCap, strings.Join(names, ";"), coqStr16(c.Subj), vh.CoqZ(int64(c.Start)),
-		strings.Join(ops, ";"), eng(obs[0].Eng), eng(obs[2].Eng), strings.Join(ents, ";"), iA, iB,
-		strings.Join(obsd, ";"), strings.Join(oi, ";"))
+	w.n(uint64(len(obsd)))
+	for _, e := range obsd {
+		w = append(w, e...)
+	}
+	w.n(uint64(len(oi)))
+	for _, k := range oi {
+		w.n(uint64(k))
+	}
+	term := w.term()
 	// coverage
 	tags["engineA:"+obs[0].Eng] = true
 	tags["engineB:"+obs[2].Eng] = true
@@ -551,6 +795,21 @@ func runCase(c Case) vh.Record {
 			s := "null"
 			if e.M != nil {
 				s = fmt.Sprintf("%d-%d", e.M.I, e.Li)
+				// capture ranges (from the hook) after a slash: a-b per group, x = did not participate
+				if len(e.R) > 2 {
+					var cs []string
+					for k := 2; k+1 < len(e.R); k += 2 {
+						if e.R[k] < 0 {
+							cs = append(cs, "x")
+						} else {
+							cs = append(cs, fmt.Sprintf("%d-%d", e.R[k], e.R[k+1]))
+						}
+					}
+					s += "/" + strings.Join(cs, ",")
+				}
+				if e.M.G != nil {
+					s += "#g"
+				}
 			}
 			if i == 0 {
 				h.TabA = append(h.TabA, s)
@@ -852,6 +1111,11 @@ func genRun(r *vh.Rng) Case {
 		if o.O == "split" && r.Chance(30) {
 			l := r.Intn(4)
 			o.Lim = &l
+		}
+		if o.O == "split" && c.Deopt == 1 {
+			// kind 1 de-optimises the instance only: the splitter clone made by @@split would be a pristine
+			// RegExp again, so this configuration would not exercise the generic split path
+			o = Op{O: "exec"}
 		}
 		c.Ops = append(c.Ops, o)
 	}
